@@ -101,19 +101,13 @@ fn read_sheet_header(
         None => return Err(SheetParseError::new(1, format!("Sheet was empty"))),
     };
 
-    let row_strs: Vec<String> = first_row
-        .into_iter()
-        .filter(|cell| match &cell {
-            DataType::String(_) => true,
-            _ => false,
-        })
-        .map(|cell| match cell {
-            DataType::String(s) => s.clone(),
-            v => panic!("DataType was {v:?}"),
-        })
-        .collect();
-
-    Ok(HashMap::from_iter(
-        row_strs.into_iter().enumerate().map(|(i, v)| (v, i)),
-    ))
+    // Map each named column to its actual position in the sheet. Cells which are
+    // not strings (blank header cells, for instance) name no column, but they
+    // still take up a position, so enumerate before filtering them out.
+    Ok(HashMap::from_iter(first_row.into_iter().enumerate().filter_map(
+        |(i, cell)| match cell {
+            DataType::String(s) => Some((s.clone(), i)),
+            _ => None,
+        },
+    )))
 }
